@@ -88,7 +88,7 @@ func (c *chaos) finalChecks() {
 				return
 			}
 			if msg := m.compareDump(dump, false); msg != "" {
-				r.Fail(propClass(c.o.Prop, "C07", "leader-state-not-fold-of-log"), "shard %d leader %s (term %d, commit %d): %s%s", s, lname, leader.Term, leader.CommitOffset, msg, c.mon.swapNote())
+				r.Fail(propClass(c.o.Prop, "C07", "leader-state-not-fold-of-log"), "shard %d leader %s (term %d, commit %d): %s%s", s, lname, leader.Term, leader.CommitOffset, msg, c.mon.electionFacts(s)+c.mon.swapNote())
 				return
 			}
 			r.Count("final_state_checks", 1)
@@ -104,7 +104,7 @@ func (c *chaos) finalChecks() {
 				upTo = leader.CommitOffset
 			}
 			if msg := compareLogs(leader.Wal, v.Wal, -1, upTo); msg != "" {
-				r.Fail(propClass(c.o.Prop, "C03", "committed-logs-diverge"), "shard %d: leader %s and replica %s: %s (commit offsets %d / %d)%s", s, lname, n, msg, leader.CommitOffset, v.CommitOffset, c.mon.swapNote())
+				r.Fail(propClass(c.o.Prop, "C03", "committed-logs-diverge"), "shard %d: leader %s and replica %s: %s (commit offsets %d / %d)%s", s, lname, n, msg, leader.CommitOffset, v.CommitOffset, c.mon.electionFacts(s)+c.mon.swapNote())
 				return
 			}
 			if v.CommitOffset == leader.CommitOffset && v.DB != nil {
@@ -112,7 +112,7 @@ func (c *chaos) finalChecks() {
 					lco, _ := leader.DB.ReadCommitOffset()
 					fco, _ := v.DB.ReadCommitOffset()
 					r.Fail(propClass(c.o.Prop, "C06", "replica-state-differs"), "shard %d: leader %s and replica %s at commit offset %d: %s; leader log %s (db commit %d), replica log %s (db commit %d, status %d, term %d); entries touching the key: %s",
-						s, lname, n, v.CommitOffset, msg, termsOf(leader.Wal), lco, termsOf(v.Wal), fco, v.Status, v.Term, entriesTouching(leader.Wal, msg)+c.mon.swapNote())
+						s, lname, n, v.CommitOffset, msg, termsOf(leader.Wal), lco, termsOf(v.Wal), fco, v.Status, v.Term, entriesTouching(leader.Wal, msg)+c.mon.electionFacts(s)+c.mon.swapNote())
 					return
 				}
 				r.Count("replica_state_compared", 1)
